@@ -1074,6 +1074,14 @@ class Interp:
                     acc = f(acc, x)
                 return acc
             return any(v) if name == "any" else all(v)
+        if name in ("max", "min"):
+            items = list(args[0]) if len(args) == 1 else list(args)
+            if not any(is_symbolic(x) for x in items):
+                return max(items) if name == "max" else min(items)
+            acc = items[0]
+            for x in items[1:]:
+                acc = (u_max if name == "max" else u_min)(acc, x)
+            return acc
         if name == "range":
             return range(*[self.concrete_int(a, e) for a in args])
         if name == "zip":
@@ -1119,7 +1127,7 @@ class Interp:
         return None
 
 
-BUILTINS = {"len", "abs", "any", "all", "range", "zip", "list", "float", "bool", "int"}
+BUILTINS = {"len", "abs", "any", "all", "range", "zip", "list", "float", "bool", "int", "max", "min"}
 
 
 # ------------------------------------------------------------------- numpy table
